@@ -216,6 +216,9 @@ impl J {
     }
 }
 
+/// Cases in which harness (or unprotected library) code panicked; reported as undecided.
+pub static HARNESS_PANICS: Mutex<Vec<String>> = Mutex::new(Vec::new());
+
 /// Progress slot of one worker, read by the watchdog.
 pub struct Slot {
     pub case: Mutex<Option<(String, Instant)>>,
@@ -263,7 +266,11 @@ pub fn run_pool<S: Send + 'static>(
                             break;
                         }
                         *slots[w].case.lock().unwrap() = Some((label(i), Instant::now()));
-                        f(&mut st, i);
+                        // a panic in harness code must not take the verdicts of the other cases with it
+                        let r = std::panic::catch_unwind(std::panic::AssertUnwindSafe(|| f(&mut st, i)));
+                        if r.is_err() {
+                            HARNESS_PANICS.lock().unwrap().push(label(i));
+                        }
                         *slots[w].case.lock().unwrap() = None;
                     }
                     done.fetch_add(1, Ordering::SeqCst);
